@@ -226,6 +226,10 @@ package posix
 //@ func (*Posix) PutObject
 //@   at-call posix.Posix.storeObjectMetadata {C01} [headers-handed-on-as-supplied] requires $2 == *po.Bucket && $3 == *po.Key && $4.ContentType == po.ContentType && $4.ContentEncoding == po.ContentEncoding && $4.ContentDisposition == po.ContentDisposition && $4.ContentLanguage == po.ContentLanguage && $4.CacheControl == po.CacheControl && $4.Expires == po.Expires
 //@   at-call io.TeeReader {C01} [the-md5-is-fed-by-the-client-body] requires $0 == po.Body
+// the attributes of a replaced object are removed before those of the new one are written (they are not stored with the
+// file in every metadata store); directory objects (no file handle) are handled by their own branch
+//@   at-call meta.MetadataStorer.StoreAttribute {C01} [the-old-attributes-are-removed-first] when $0 != nil :: requires called("meta.MetadataStorer.DeleteAttributes")
+//@   at-call meta.MetadataStorer.DeleteAttributes {C01} [the-attributes-removed-are-those-of-the-object-written] requires $0 == *po.Bucket && $1 == *po.Key
 //@   at-call meta.MetadataStorer.StoreAttribute {C01} [etag-attribute-is-the-md5-of-what-was-copied] when $3 == etagkey && called("posix.Posix.openTmpFile") :: requires called("hash.Hash.Sum") && called("io.Copy") && len($4) == len(etag) && (forall i int :: 0 <= i && i < len($4) ==> $4[i] == etag[i])
 //@   at-return {C01} [answered-etag-is-the-stored-one] when err == nil && called("posix.tmpfile.link") :: ensures ret0.ETag == etag
 //@ func (*Posix) HeadObject
